@@ -37,6 +37,8 @@ def order_clauses(keycols, dirs, rids):
                            z3.Not(z3.And(z3.Not(na(k, p)), na(k, q), z3.Not(na(k, r))))))))
     return cl
 
+OBJ_POOL = [None, 2, 10, -1, -2]
+
 class Sort(Harness):
     prop = "C03"
     opname = "df_sort"
@@ -55,6 +57,10 @@ class Sort(Harness):
         for j, k in enumerate(self.kinds):
             name = "k%d" % j
             cols[name] = mk_col(k, n, name)
+            if k == "O" and getattr(self, "obj_pool", False):
+                # object column of fixed small ints (digit counts and signs differ) and None, instead of symbolic ints
+                vals = [OBJ_POOL[choice(f"{name}{i}_pool", range(len(OBJ_POOL)))] for i in range(n)]
+                cols[name] = Arr("object", [None if v is None else symx.SymPyInt(z3.BitVecVal(v, 64)) for v in vals])
             by.append([name, choice(f"dir{j}", [1, -1])])
         cols["y"] = mk_col("f", n, "y")
         cols["rid"] = rid_col(n)
@@ -123,7 +129,8 @@ def harnesses(tier):
         hs.append(Sort(["f", "b"], 3))
         hs.append(Sort(["T", "i"], 2))
         hs.append(Sort(["us"], 3))          # microsecond ticks reach beyond 2**53 within years 1..9999
-        hs.append(Sort(["td"], 2)); hs.append(Sort(["ns"], 2))
+        hs.append(Sort(["td"], 2)); hs.append(Sort(["ns"], 2)); hs.append(Sort(["O"], 2))
+        h = Sort(["O"], 2); h.obj_pool = True; h.name = "C03.sort.O.pool.n2"; h.bounds = dict(h.bounds, values="object ints from {2, 10, -1, -2} and None"); hs.append(h)
         hs.append(Sort(["D"], 4))           # four rows: a tie, a missing value and a larger value together (descending dates go through rank)
         hs.append(Prepared(Sort(["U"], 2))); hs.append(Prepared(Sort(["T", "i"], 2)))
     else:
@@ -131,6 +138,7 @@ def harnesses(tier):
         kinds = ["f", "i", "T", "b", "D", "us", "U", "O"]
         for k in kinds + ["td", "ns"]:
             hs.append(Sort([k], 4))
+        h = Sort(["O"], 3); h.obj_pool = True; h.name = "C03.sort.O.pool.n3"; h.bounds = dict(h.bounds, values="object ints from {2, 10, -1, -2} and None"); hs.append(h)
         for a in kinds:
             for b in kinds:
                 hs.append(Sort([a, b], 2))            # every ordered dtype pair
